@@ -22,15 +22,20 @@ MODULE = 'Sbepp.Properties.C08'
 THEOREMS = [
     'Sbepp.Properties.C08.parseNum_spec',
     'Sbepp.Properties.C08.rejects_every_broken_schema',
+    'Sbepp.Properties.C08.accepts_every_rule_abiding_schema',
+    'Sbepp.Properties.C08.check_ok_iff_rules_partial',
+    'Sbepp.Properties.C08.check_ok_iff_rules_partial_data',
     'Sbepp.Properties.C08.check_ok_rules_partial',
-    "Sbepp.Properties.C08.check_ok_rules_partial'",
+    'Sbepp.Properties.C08.check_error_sound',
+    'Sbepp.Properties.C08.check_error_sound_hash_order',
+    'Sbepp.Properties.C08.check_error_sound_partial',
+    'Sbepp.Properties.C08.check_error_sound_cyclic',
     'Sbepp.Properties.C08.C08_full_false',
-    "Sbepp.Properties.C08.C08_full_false'",
+    'Sbepp.Properties.C08.C08_full_false_rejects_valid',
     'Sbepp.Properties.C08.accepted_no_overlap',
     'Sbepp.Properties.C08.accepted_members_in_block',
     'Sbepp.Properties.C08.cycle_detection_complete',
     'Sbepp.Properties.C08.cyclic_schema_rejected',
-    'Sbepp.Properties.C08.check_error_sound_cyclic',
     'Sbepp.Properties.C08.keyword_lists_agree',
 ]
 
@@ -271,6 +276,58 @@ def judge(rep, c, stats):
         stats['generated_schema_rejected_by_all'] += 1
 
 
+def _strings(txt):
+    return re.findall(r'"([^"]*)"', txt)
+
+
+def tables_tie(chk):
+    """the literal tables the hand-written model copies from /repo must still be what /repo says
+    (keyword list, reserved namespaces, primitive type sets, required header members)"""
+    src = os.path.join(core.REPO, 'sbeppc/src/sbepp/sbeppc')
+    cpp = open(os.path.join(src, 'sbe_schema_cpp_validator.hpp')).read()
+    val = open(os.path.join(src, 'sbe_schema_validator.hpp')).read()
+    utl = open(os.path.join(src, 'utils.hpp')).read()
+    lean = open(os.path.join(core.LEAN, 'Sbepp', 'Schema', 'Rules.lean')).read()
+    res = open(os.path.join(core.LEAN, 'Sbepp', 'Schema', 'Resolve.lean')).read()
+
+    def block(txt, start, end):
+        i = txt.find(start)
+        if i < 0:
+            return None
+        j = txt.find(end, i)
+        return txt[i:j] if j > 0 else None
+
+    def cxx_set(txt, name):
+        b = block(txt, name + '{', '};')
+        return None if b is None else set(_strings(b))
+
+    pairs = {
+        'cpp_keywords': (cxx_set(cpp, 'cpp_keywords'), set(_strings(block(lean, 'def cppKeywords', 'def isCppKeyword') or ''))),
+        'primitive_types': (cxx_set(utl, 'primitive_types'),
+                            set(_strings(block(res, 'def primSize?', 'def isPrimitive') or ''))),
+        'single_byte_types': (cxx_set(val, 'single_byte_types'),
+                              set(_strings(block(lean, 'def isSingleByteType', 'def isIntegralType') or ''))),
+        'integral_types': (cxx_set(val, 'integral_types'),
+                           set(_strings(block(lean, 'def isIntegralType', 'def isUnsignedPrimitiveType') or ''))),
+        'unsigned_types': (cxx_set(val, 'unsigned_types'),
+                           set(_strings(block(lean, 'def isUnsignedPrimitiveType', '/-- `sbe_schema_cpp_validator') or ''))),
+        'reserved_namespaces': (set(re.findall(r'str == "(\w+)"', block(cpp, 'bool is_reserved_cpp_namespace', '}') or '')),
+                                set(_strings(block(lean, 'def isReservedCppNamespace', '\n\n') or ''))),
+        'message_header_members': (set(_strings(block(val, 'void validate_message_header()', '// strict') or '')) - {'message'},
+                                   {'schemaId', 'templateId', 'version', 'blockLength'}),
+        'group_header_members': (set(_strings(block(val, 'void validate_group_header(', '// strict') or '')) - {'group'},
+                                 {'numInGroup', 'blockLength'}),
+    }
+    bad = {}
+    for k, (a, b) in pairs.items():
+        if a is None or not a or a != b:
+            bad[k] = {'repo': sorted(a) if a else None, 'model': sorted(b)}
+    chk.extra['tables_tie'] = {'checked': sorted(pairs), 'mismatch': bad}
+    if bad:
+        chk.report_unproved('extraction: a literal table of the model no longer matches /repo', bad)
+    return not bad
+
+
 def gen_schema(seed, i):
     rng = random.Random((seed * 1000003 + i) * 31 + 8)
     g = S.Gen(rng)
@@ -279,7 +336,7 @@ def gen_schema(seed, i):
 
 def job(args):
     """one worker: schemas `idxs` (with all mutants when `with_mut`), sbeppc + model + judgement"""
-    seed, idxs, with_mut, keep, exe, model, workdir = args
+    seed, idxs, with_mut, keep, exe, model, workdir, part, nparts = args
     stats = dict.fromkeys(STAT_KEYS, 0)
     feat, rules_hist, cls_hist, pos_hist = {}, {}, {}, {}
     reports, samples, nontrivial = [], [], 0
@@ -288,13 +345,16 @@ def job(args):
         sch, f = gen_schema(seed, i)
         for k, v in f.items():
             feat[k] = feat.get(k, 0) + v
-        cases.append(Case(len(cases), 'valid', sch, None, i))
+        if part == 0:
+            cases.append(Case(len(cases), 'valid', sch, None, i))
         if with_mut:
             krng = random.Random(seed * 31 + i)
-            for m in M.mutants(sch, random.Random(seed * 7919 + i)):
+            for k, m in enumerate(M.mutants(sch, random.Random(seed * 7919 + i))):
                 if m.rule == 'value' and krng.random() > keep:
                     continue
-                cases.append(Case(len(cases), 'mutant' if m.expect == 'reject' else 'boundary', m.schema, m, i))
+                if k % nparts != part:
+                    continue
+                cases.append(Case(k + 1, 'mutant' if m.expect == 'reject' else 'boundary', m.schema, m, i))
     for c in cases:
         run_sbeppc(exe, workdir, c)
     answers = model_batch(model, ['verdict ' + M.to_sexp(c.schema) for c in cases])
@@ -331,13 +391,14 @@ def merge(dst, src):
 
 def run(chk):
     chk.extract()
+    tables_tie(chk)
     proved = chk.prove(MODULE, THEOREMS)
     if chk.tier == 'thorough' and proved:
         chk.leanchecker(MODULE)
     thorough = chk.tier == 'thorough'
     n_valid = 1500 if thorough else 150
     n_mut = 200 if thorough else 20
-    keep = 0.35
+    keep = 0.35 if thorough else 0.25
     stats = dict.fromkeys(STAT_KEYS, 0)
     model = chk.model_exe()
     if model is None:
@@ -353,9 +414,10 @@ def run(chk):
     feat, rules_hist, cls_hist, pos_hist = {}, {}, {}, {}
     ncases = distinct = 0
     try:
-        jobs = [(chk.seed, [i], True, keep, exe, model, workdir) for i in range(n_mut)]
+        nparts = 4
+        jobs = [(chk.seed, [i], True, keep, exe, model, workdir, part, nparts) for i in range(n_mut) for part in range(nparts)]
         rest = list(range(n_mut, n_valid))
-        jobs += [(chk.seed, rest[k:k + 25], False, keep, exe, model, workdir) for k in range(0, len(rest), 25)]
+        jobs += [(chk.seed, rest[k:k + 10], False, keep, exe, model, workdir, 0, 1) for k in range(0, len(rest), 10)]
         with cf.ProcessPoolExecutor(core.NPROC) as ex:
             for r in ex.map(job, jobs):
                 merge(stats, r['stats'])
